@@ -19,7 +19,7 @@ import (
 func init() {
 	eng.Register(&eng.Check{
 		ID:           "C11",
-		Rule:         "E2 + overlay accessor (grammar.VerifParse returns the parser's step counter): inputs = every token sequence of <=2 tokens (thorough <=3) of the C15 alphabet, the C15 derivation set, invalid variants, long inputs (300..4000 bytes) whose syntax error is found early or that are valid, and nested parentheses of depth 0..6 (thorough 0..8 unlimited, 9..11 limited-only) x budgets n: EVERY n in 1..N+2 when N<=600 (N = step count of the unlimited parse), otherwise {1,2,3, N/2, N-2..N+2, 2N, 2^64-1} and all powers of two <= 2^22; oracle: n=0 or n>=N gives exactly the unlimited result (same tree dump / same error text); 0<n<N gives a nil value and the max-expressions error (its text is learned from a budget-1 parse, not hard-coded); a limited parse executes at most n+1 steps - by the parser's own counter AND by an independent count (the overlay hooks every entry of parseExpr, over all parser instances of the process); budgets around the input LENGTH (len-1, len, len+1, (N+len)/2) are always included; CreateEvaluator(WithMaxExpressions(n)) fails iff grammar.Parse(MaxExpressions(n)) fails, and with the same error text; deep nesting is rejected within the budget (steps measured, no wall-clock oracle); the option given twice behaves as its last occurrence. Distinct by construction; non-trivial = (input, n) pairs with 0<n<N+3 (around or below the threshold).",
+		Rule:         "E2 + overlay accessor (grammar.VerifParse returns the parser's step counter): inputs = every token sequence of <=2 tokens (thorough <=3) of the C15 alphabet, the C15 derivation set, invalid variants, long inputs (300..4000 bytes) whose syntax error is found early or that are valid, and nested parentheses of depth 0..6 (thorough 0..8 unlimited, 9..11 limited-only) x budgets n: EVERY n in 1..N+2 when N<=600 (N = step count of the unlimited parse), otherwise {1,2,3, N/2, N-2..N+2, 2N, 2^64-1} and all powers of two <= 2^22; oracle: n=0 or n>=N gives exactly the unlimited result (same tree dump / same error text); 0<n<N gives a nil value and the max-expressions error (its text is learned from a budget-1 parse, not hard-coded); a limited parse executes at most n+1 steps - by the parser's own counter AND by an independent count (the overlay hooks every entry of parseExpr, over all parser instances of the process); budgets around the input LENGTH (len-1, len, len+1, (N+len)/2) are always included; CreateEvaluator(WithMaxExpressions(n)) fails iff grammar.Parse(MaxExpressions(n)) fails, and with the same error text; deep nesting is rejected within the budget (steps measured, no wall-clock oracle); the option given twice behaves as its last occurrence; concurrent creations under different budgets each keep their own (E3 schedule exploration of 2x1, 3x1, 2x2 creations, as in C12). Distinct by construction; non-trivial = (input, n) pairs with 0<n<N+3 (around or below the threshold).",
 		Assumptions:  []string{"read-only accessor added by the generated overlay (build tag verif); /repo is not modified", "bounded input set and budget sweep as stated"},
 		Run:          runC11,
 		NeedsOverlay: "full",
@@ -101,6 +101,11 @@ func c11Inputs(thorough bool) []string {
 
 func runC11(c *eng.Ctx) {
 	hookMissing := false
+	// the budget belongs to the creation it was given to, also when creations overlap: E3 schedule exploration of concurrent creations
+	// under different budgets (scenario coordinates s=0.. are disjoint from the input coordinates i=..)
+	if _, other := c.Only["i"]; !other {
+		c12RunScenarios(c, c12BudgetScenarios())
+	}
 	ins := c11Inputs(c.Thorough())
 	maxUnlimitedDepth, maxDepth := 6, 8
 	if c.Thorough() {
